@@ -439,7 +439,15 @@ def object_get_state(obj: Any, save_context: SaveContext) -> dict[str, Any]:
     # safe to call it with the specified arguments.
 
     reduce_output = obj.__reduce__()
-    if len(reduce_output) == 2 and reduce_output[0] is type(obj):
+    if any(item is not None for item in reduce_output[3:]):
+        # the pickle protocol hands over list/dict items (e.g. collections.deque)
+        # that neither __getstate__ nor __dict__ contain: they would be lost
+        raise UnsupportedTypeException(obj)
+    if (
+        len(reduce_output) >= 2
+        and reduce_output[0] is type(obj)
+        and all(item is None for item in reduce_output[2:])
+    ):
         return {
             "__class__": type(obj).__name__,
             "__module__": get_module(type(obj)),
